@@ -348,7 +348,12 @@ func (p *sqlParser) parsePrimary() tv3 {
 			verifrt.Fail("sqlwhere.expected-paren-after-in")
 		}
 		r := tv3{false, true} // empty disjunction
-		for {
+		for first := true; ; first = false {
+			if first && p.peek().kind == ")" {
+				// the empty list (SQLite accepts it): IN () is false, NOT IN () true, for NULL too
+				p.next()
+				break
+			}
 			e := p.next()
 			if e.kind == "?" {
 				av, an := p.arg()
